@@ -906,7 +906,7 @@ def check_cli_inprocess(cfg, case, rec, tmpdir):
     return "ok"
 
 
-def check_total(cfg, rec=None, tmpdir=None, labels=()):
+def check_total(cfg, rec=None, tmpdir=None, labels=(), with_cli=True):
     case = {"cfg": enc(cfg)}
     view = validator_view(cfg, case, rec)
     out_labels = list(labels)
@@ -920,6 +920,8 @@ def check_total(cfg, rec=None, tmpdir=None, labels=()):
                 out_labels.append("warnings")
         elif any("did you mean" in ln for ln in view["lines"]):
             out_labels.append("suggestion")
+    if not with_cli:
+        return view, out_labels
     own_tmp = None
     if tmpdir is None:
         own_tmp = tmpdir = tempfile.mkdtemp(prefix="c14_cli_", dir=os.environ.get("VERIF_TMP") or None)
@@ -1526,12 +1528,12 @@ def check_runnable(case, rec=None):
                     rec.case(nontrivial=False, labels=["lenient_rejected"])
                 return
             raise Violation(f"validator rejects a configuration the documented table allows: {str(e)[:300]}", case, "rejects-documented-valid")
-        except TypeError as e:
-            if lenient and _lev_typeerror(e, o):
-                if rec is not None:
-                    rec.case(nontrivial=False, labels=["lenient_nonstring_key"])
+        except Exception as e:  # the validator may only raise ConfigError
+            if lenient and _lev_typeerror(e, o) and _is_known(rec, KNOWN_NONSTR):
+                rec.case(nontrivial=False, labels=["lenient_nonstring_key"])
                 return
-            raise
+            fr = _innermost(e)
+            raise Violation(f"validate_config raised {type(e).__name__}: {e}", case, f"raises:{type(e).__name__}@{fr.name if fr else '?'}")
         ndiff = _leaf_diff(cfg, base)
         if needs_network(cfg):
             if rec is not None:
@@ -1816,5 +1818,5 @@ SUBCHECKS = [
     Sub("hashseed", sub_hashseed, quick={"n": 200}, thorough={"n": 2500}, shards_quick=2, shards_thorough=8, replay=replay_hashseed),
     Sub("cli", sub_cli, quick={"n": 10}, thorough={"n": 95}, shards_quick=4, shards_thorough=16, replay=replay_cli),
     Sub("runnable", sub_runnable, quick={"n": 75}, thorough={"n": 650}, shards_quick=4, shards_thorough=16, replay=replay_runnable),
-    Sub("atheris", sub_atheris, quick={"runs": 1500}, thorough={"runs": 200000}, shards_quick=1, shards_thorough=4, replay=replay_total),
+    Sub("atheris", sub_atheris, quick={"runs": 4000}, thorough={"runs": 100000}, shards_quick=1, shards_thorough=4, replay=replay_total),
 ]
